@@ -298,6 +298,15 @@ func (fr *Frame) staticCall(st *State, g string, site ssa.Instruction, callee *s
 	sig := callee.Signature
 	cname := canonFunc(callee)
 	fr.callSiteAsserts(st, g, cname, false, args, callee, pos)
+	if cname == "sort.Slice" && len(argVals) == 2 {
+		if mc, ok := argVals[1].(*ssa.MakeClosure); ok {
+			if mi, ok := argVals[0].(*ssa.MakeInterface); ok {
+				if _, isSl := mi.X.Type().Underlying().(*types.Slice); isSl {
+					return fr.sortSlice(st, g, mi.X, mc, pos)
+				}
+			}
+		}
+	}
 	if cname == "sort.Search" && len(argVals) == 2 {
 		if mc, ok := argVals[1].(*ssa.MakeClosure); ok {
 			return fr.sortSearch(st, g, args[0], mc, pos)
@@ -1315,4 +1324,42 @@ func mustParseType(src string) TypeExpr {
 		panic(bindErr("bad type " + src))
 	}
 	return t
+}
+
+// sortSlice: sort.Slice(x, less). Assumed: the elements of x are permuted (modelled as: the
+// backing array of x gets arbitrary contents) and nothing else changes. Its documented
+// precondition - less must order the elements of x - is checked in the form available
+// to a sequential contract: every slice variable the less closure reads is x itself.
+func (fr *Frame) sortSlice(st *State, g string, x ssa.Value, mc *ssa.MakeClosure, pos token.Pos) (*State, []string) {
+	vc := fr.vc
+	vc.trust("assumed contract of sort.Slice: permutes the elements of its slice argument (contents havoc'ed), touches nothing else; sortedness of the result is not assumed")
+	xs := fr.val(x)
+	ci := fr.findClosure(mc)
+	fn := mc.Fn.(*ssa.Function)
+	n := 0
+	for i, fv := range fn.FreeVars {
+		pt, ok := fv.Type().Underlying().(*types.Pointer)
+		if !ok {
+			continue
+		}
+		if _, isSl := pt.Elem().Underlying().(*types.Slice); !isSl {
+			continue
+		}
+		if ci == nil || i >= len(ci.bindings) {
+			continue
+		}
+		l, ok := ci.frame.locs[ci.bindings[i]]
+		if !ok {
+			continue
+		}
+		cur := fr.load(st, l)
+		vc.addObl(&Obligation{Name: fmt.Sprintf("%s#pre@sort.Slice.less_reads_sorted_slice.%d", vc.unit, n), Kind: "pre", Props: fr.top().props(), Guard: g,
+			Goal: eq(cur, xs), Src: "the slice read by the less function (captured variable " + fv.Name() + ") is the slice being sorted", Pos: vc.eng.pos(pos)})
+		n++
+	}
+	sl := x.Type().Underlying().(*types.Slice)
+	hv := vc.arrHeapVar(sl.Elem())
+	f := vc.freshConst("sorted", fmt.Sprintf("(Array %s %s)", vc.goInt(), vc.sortOf(sl.Elem())))
+	st = fr.setVar(st, hv, fmt.Sprintf("(store %s (sref %s) %s)", st.get(hv), xs, f))
+	return st, nil
 }
